@@ -63,12 +63,11 @@ func (s *Service) auctionBlock(ctx context.Context,
 	ctx, span := otel.Tracer("attestantio.vouch.services.blockrelay.standard").Start(ctx, "auctionBlock")
 	defer span.End()
 
-	s.executionConfigMu.RLock()
+	// ProposerConfig takes the execution configuration lock itself.
 	proposerConfig, err := s.ProposerConfig(ctx, account, pubkey)
 	if err != nil {
 		return nil, errors.Wrap(err, "failed to obtain proposer configuration")
 	}
-	s.executionConfigMu.RUnlock()
 
 	if len(proposerConfig.Relays) == 0 {
 		s.log.Trace().Msg("No relays in proposer configuration")
